@@ -1,8 +1,8 @@
 use crate::{
     cfg::RegisterSet,
     parser::{
-        CsrIType, CsrType, HasRegisterSets, IArithType, InstructionProperties, ParserNode,
-        Register, RegisterProperties,
+        CsrIType, CsrType, HasRegisterSets, IArithType, InstructionProperties, LoadType,
+        ParserNode, Register, RegisterProperties,
     },
 };
 
@@ -79,13 +79,17 @@ impl HasGenValueInfo for ParserNode {
             ParserNode::LoadAddr(expr) => {
                 Some((expr.rd.get(), AvailableValue::Address(expr.name.clone())))
             }
-            ParserNode::Load(expr) => Some((
-                expr.rd.get(),
-                AvailableValue::MemoryAtRegister(
-                    expr.rs1.get_cloned(),
-                    expr.imm.get_cloned().value(),
-                ),
-            )),
+            // Only a word load yields the value stored in a (word) memory
+            // location; lb/lbu/lh/lhu yield a part of it.
+            ParserNode::Load(expr) if matches!(expr.inst.get(), LoadType::Lw | LoadType::Lwu) => {
+                Some((
+                    expr.rd.get(),
+                    AvailableValue::MemoryAtRegister(
+                        expr.rs1.get_cloned(),
+                        expr.imm.get_cloned().value(),
+                    ),
+                ))
+            }
             ParserNode::IArith(expr) => {
                 if expr.rs1 == Register::X0 {
                     match expr.inst.get() {
